@@ -555,12 +555,22 @@ class Summariser:
             impure = not _readonly(s.value)  # judged on the expression as written: substituted text is not re-evaluated
             for (env2, tr2), v in self.values(s.value, st):
                 env3 = dict(env2)
-                if impure:
-                    env3["__ib"] = env3.get("__ib", 0) + 1  # evaluating a call that may change state is a tick
                 tr3 = tr2
+                if impure:
+                    # evaluating a call that may change state is an event of its own, wherever its result is used
+                    tr3 = tr3 + (("e", f"_ := {src(v)}"),)
                 for t in targets:
                     if isinstance(t, (ast.Name, ast.Tuple, ast.List)):
                         self.bind(t, v, env3)
+                        if any(isinstance(n, (ast.Attribute, ast.Subscript)) for n in ast.walk(t)):
+                            # unpacking into attributes / items stores them
+                            tr3 = tr3 + (("e", f"{src(self.subst(_as_load(t), env2))} = {src(v)}"),)
+                        # a variable captured by a nested function is read when that function runs: where it is
+                        # bound, relative to the effects around it, is part of the behaviour
+                        cap = self.shared.get("captured") or ()
+                        for n in ast.walk(t):
+                            if isinstance(n, ast.Name) and n.id in cap:
+                                tr3 = tr3 + (("e", f"{n.id} := {src(v)}"),)
                         if self.liveset is not None and any(isinstance(n, ast.Call) for n in ast.walk(v)):
                             tn = {n.id for n in ast.walk(t) if isinstance(n, ast.Name)}
                             if not (tn & self.liveset):
@@ -572,9 +582,13 @@ class Summariser:
         if isinstance(s, ast.AugAssign):
             v = self.subst(s.value, env)
             if isinstance(s.target, ast.Name):
-                old = env.get(s.target.id) or ast.Name(id=s.target.id, ctx=ast.Load())
+                old = env.get(s.target.id)
+                if not isinstance(old, ast.AST):
+                    old = ast.Name(id=s.target.id, ctx=ast.Load())
                 env2 = dict(env)
                 env2[s.target.id] = ast.BinOp(left=copy.deepcopy(old), op=s.op, right=v)
+                if s.target.id in (self.shared.get("captured") or ()):
+                    return [(env2, trace + (("e", f"{s.target.id} {type(s.op).__name__}= {src(v)}"),))]
                 return [(env2, trace)]
             t = self.subst(s.target, env)
             return [(env, trace + (("e", f"{src(t)} {type(s.op).__name__}= {src(v)}"),))]
@@ -612,7 +626,11 @@ class Summariser:
             env2 = dict(env_in)
             for k in killed:
                 env2[k] = None
-            st2 = (env2, trace + (("loop", head, body),))
+            # the values with which the loop is entered are part of its meaning
+            entry = tuple(
+                (k, src(env[k])) for k in sorted(killed) if isinstance(env.get(k), ast.AST) and (self.liveset is None or k in self.liveset)
+            )
+            st2 = (env2, trace + (("loop", head, body, entry),))
             return self.block(s.orelse, [st2]) if s.orelse else [st2]
         if isinstance(s, (ast.With, ast.AsyncWith)):
             env2 = dict(env)
@@ -622,9 +640,16 @@ class Summariser:
                 tr2 = tr2 + (("with", src(ce) + (f" as {src(it.optional_vars)}" if it.optional_vars is not None else "")),)
                 if it.optional_vars is not None:
                     self.bind(it.optional_vars, None, env2)
-            before = len(self.paths)
             out = self.block(s.body, [(env2, tr2)])
-            return [(e, t + (("endwith",),)) for e, t in out]
+            out = [(e, t + (("endwith",),)) for e, t in out]
+            if any("suppress" in src(it.context_expr.func) for it in s.items if isinstance(it.context_expr, ast.Call)):
+                # contextlib.suppress: an exception raised in the body ends the block and execution continues after it
+                killed = _stored_names(s.body)
+                env3 = {k: v for k, v in env2.items() if k not in killed}
+                for k in killed:
+                    env3[k] = None
+                out.append((env3, tr2 + (("suppressed",), ("endwith",))))
+            return out
         if isinstance(s, ast.Try):
             out = self.block(s.body, [(env, trace + (("try",),))])
             out = [(e, t + (("endtry",),)) for e, t in out]
@@ -637,7 +662,10 @@ class Summariser:
                     env2[k] = None
                 if h.name:
                     env2[h.name] = None
-                tr2 = trace + (("except", (src(h.type) if h.type else "") + (f" as {h.name}" if h.name else ""), self._try_sig(s)),)
+                entry = tuple(
+                    (k, src(env[k])) for k in sorted(killed) if isinstance(env.get(k), ast.AST) and (self.liveset is None or k in self.liveset)
+                )
+                tr2 = trace + (("except", (src(h.type) if h.type else "") + (f" as {h.name}" if h.name else ""), entry),)
                 out.extend(self.block(h.body, [(env2, tr2)]))
             if s.finalbody:
                 out = self.block(s.finalbody, [(e, t + (("finally",),)) for e, t in out])
@@ -756,17 +784,30 @@ def canonical(stmts):
 
 def _env_text(env: dict, names) -> tuple:
     out = []
+    bt = env.get("__bt") or {}
     for k in sorted(names):
-        if k in env:
+        if k in env and not k.startswith("__"):
             v = env[k]
-            out.append((k, src(v) if v is not None else "?"))
+            if isinstance(v, ast.AST) and env.get("__t", 0) > bt.get(k, 0) and position_dependent(v):
+                txt = f"@stale({src(v)})"  # bound before the last state change of the block
+            else:
+                txt = src(v) if isinstance(v, ast.AST) else "?"
+            out.append((k, txt))
     return tuple(out)
 
 
-def summarise_block(stmts, max_paths: int = 2000, live: set[str] | None = None, nested_asserts: set | None = None) -> list[Path] | None:
+def summarise_block(stmts, max_paths: int = 2000, live: set[str] | None = None, nested_asserts: set | None = None, captured: set | None = None) -> list[Path] | None:
     """paths of a statement list; 'fall' paths carry the values of the locals in `live` bound on the path;
     assert texts met inside loop bodies are added to `nested_asserts`"""
     sm = Summariser(max_paths=max_paths, liveset=None if live is None else (nondiagnostic_loads(stmts) | live))
+    sm.shared["captured"] = {
+        n.id
+        for st in stmts
+        for d in ast.walk(st)
+        if isinstance(d, (ast.FunctionDef, ast.AsyncFunctionDef, ast.Lambda))
+        for n in ast.walk(d)
+        if isinstance(n, ast.Name) and isinstance(n.ctx, ast.Load)
+    } | (captured or set())
     if live is not None:
         sm.shared["loads"] = _load_counter(stmts)
         sm.shared["outside"] = set(live)
